@@ -36,8 +36,14 @@ def inputs(draw):
     ss = draw(gen.seqsets(max_n=14, max_len=90))
     if ss["kind"] is None:
         ss = draw(gen.seqsets(kind="dna", max_n=8, max_len=40))
-    names = draw(gen.names_for(len(ss["seqs"]), max_len=16, long_names=False))
-    return {"names": names, "seqs": ss["seqs"], "kind": ss["kind"]}
+    seqs = list(ss["seqs"])
+    if draw(st.integers(0, 3)) == 0:
+        # empty records are legal input (kalign drops them): a few, or more than there are non-empty ones
+        k = draw(st.sampled_from([1, 2, len(seqs), len(seqs) + 3]))
+        for _ in range(k):
+            seqs.insert(draw(st.integers(0, len(seqs))), "")
+    names = draw(gen.names_for(len(seqs), max_len=16, long_names=False))
+    return {"names": names, "seqs": seqs, "kind": ss["kind"]}
 
 
 @st.composite
@@ -81,6 +87,10 @@ def unit_steps(u, pool, wd, slot0):
     """-> (script lines with {out} paths resolved, list of (index, what) to compare)"""
     inp = pool[u["inp"]]
     names, seqs = inp["names"], inp["seqs"]
+    if u["kind"] == "C" or (u["kind"] in ("F", "R") and u.get("infmt", "fasta") != "fasta"):
+        # aligned presentations cannot hold empty records
+        keep = [i for i, x in enumerate(seqs) if x]
+        names, seqs = [names[i] for i in keep], [seqs[i] for i in keep]
     kl = "P" if inp["kind"] == "protein" else "N"
     lines, keys = [], []
     if u["kind"] == "A":
